@@ -1,9 +1,11 @@
 #!/usr/bin/env python3
 """Print the prompt for a seeding sub-agent: only the property text(s) and a scratch worktree."""
 import json, sys
-ids = sys.argv[1:]
+args = sys.argv[1:]
+round2 = "--round2" in args
+ids = [a for a in args if not a.startswith("--")]
 props = {json.loads(l)["id"]: json.loads(l) for l in open("/verif/properties.jsonl")}
-name = "-".join(ids)
+name = "-".join(ids) + ("-r2" if round2 else "")
 out = []
 out.append(f"""You are helping evaluate a verification effort for the Rust project rust-libp2p. Your task: for each property below, craft ONE realistic source change ("seeded defect") to rust-libp2p that BREAKS the property while the code still compiles and the project's existing tests still pass, plus a demonstration (a test or small program) that fails with your change and passes without it.
 
@@ -33,5 +35,12 @@ Statement: {p['statement']}
 Quantified over: {p['quantifier']['text']}
 Relevant source files: {', '.join(p['anchors']['files'])}
 Mechanisms in the code meant to make it hold: {'; '.join(m['name'] + ' (' + m.get('where','') + ')' for m in p['anchors']['mechanism'])}
+""")
+    if round2:
+        import os
+        mp = f"/verif/seeded/{i}/meta.json"
+        if os.path.exists(mp):
+            m = json.load(open(mp))
+            out.append(f"""Another engineer has already seeded this property once. Your change must be DIFFERENT IN KIND: do not touch the same code site and do not rely on the same trigger. The earlier change touched {', '.join(m['files_changed'])} and needed: {m['needs_to_manifest']}
 """)
 print("\n".join(out))
